@@ -178,6 +178,11 @@ fn child(args: &Args) {
 /// history per thread, then judge every thread's records.
 fn scenario(seed: u64, part: &str, salt: u64, hidx: u64, cfg: &Cfg, nthreads: usize, p: &HistParams, out: &mut Out) {
     let sink = RecSink::new(0);
+    // a third of the scenarios use a sink whose writers hold the sink's lock for their whole life
+    if (seed ^ salt).wrapping_add(hidx) % 3 == 0 {
+        sink.set_exclusive(true);
+        out.count("scenarios_with_a_lock_holding_writer", 1);
+    }
     let dispatch = build_dispatch(cfg, sink.clone());
     let barrier = Arc::new(Barrier::new(nthreads));
     let mut handles = vec![];
